@@ -132,6 +132,39 @@ def run(ctx, model_ok):
                 text = f"{lit} km"
                 want = spec_format(v, dec, thou, 2, True, True) + " Kilometer"
             cases.append({"cfg": cfg, "lang": "en", "text": text, "want": want, "v": v, "kind": kind, "digits": digits})
+    # ONE setter at a time between evaluations: after a full configuration and a print of every kind, only the number, only the
+    # percentage or only the money settings change, and every kind is printed again — what a print remembers about the settings
+    # must not outlive a change of any one of them
+    for _ in range(ctx.n(40, 1200)):
+        dec, thou = rng.choice(SEPS)
+        st_ = {"num": [2, True, True], "pct": [2, True, True], "money": [False, True]} if rng.random() < 0.5 else \
+              {"num": [rng.randint(0, 6), rng.random() < 0.5, rng.random() < 0.5], "pct": [rng.randint(0, 6), rng.random() < 0.5, rng.random() < 0.5], "money": [rng.random() < 0.5, rng.random() < 0.5]}
+        first = True
+        hops = []
+        for step in range(rng.randint(2, 4)):
+            if first:
+                cfg = [{"op": "cfg", "dec": dec, "thou": thou, "num": st_["num"], "pct": st_["pct"], "money": st_["money"]}]
+                first = False
+            else:
+                which = rng.choice(["num", "pct", "pct", "money"])
+                st_[which] = [rng.choice([0, 1, 3, 4, 5]), rng.random() < 0.5, rng.random() < 0.5] if which != "money" else [rng.random() < 0.5, rng.random() < 0.5]
+                cfg = [{"op": "cfg", which: st_[which]}]
+            full = [{"op": "cfg", "dec": dec, "thou": thou, "num": st_["num"], "pct": st_["pct"], "money": st_["money"]}]
+            for kind in ("number", "percent", "money"):
+                v = rng.choice([1234.5678, 0.123456, 1234.5, 99.995, 1000000.25, 7.0])
+                t = pyfloat_text(v)
+                if kind == "number":
+                    text, want = f"[NUMBER:{t}]", spec_format(v, dec, thou, *st_["num"][:1], st_["num"][1], st_["num"][2])
+                elif kind == "percent":
+                    text, want = f"[PERCENT:{t}]", "%" + spec_format(v, dec, thou, st_["pct"][0], st_["pct"][1], st_["pct"][2])
+                else:
+                    info = cfgj["currencies"]["USD" if "USD" in cfgj["currencies"] else "usd"]
+                    p_ = spec_format(v, dec, thou, info["decimalDigits"], st_["money"][0], st_["money"][1])
+                    text = f"{t.replace('.', dec)} usd"
+                    want = (info["symbol"] + (" " if info["spaceBetweenAmountAndSymbol"] else "") + p_) if info["symbolOnLeft"] else (p_ + (" " if info["spaceBetweenAmountAndSymbol"] else "") + info["symbol"])
+                hops = hops + cfg + [{"op": "exec", "lang": "en", "text": text}]
+                cases.append({"cfg": cfg, "lang": "en", "text": text, "want": want, "v": v, "kind": kind, "digits": st_["num"][0], "hist_ops": hops, "full": full})
+                cfg = []
     # run (config cases are stateful: sequential, default restored by Corr-like framing)
     ops = []
     DEFAULT = [{"op": "cfg", "dec": ",", "thou": ".", "num": [2, True, True], "pct": [2, True, True], "money": [False, True]}]
@@ -151,7 +184,7 @@ def run(ctx, model_ok):
         ctx.seen((C.json.dumps(c["cfg"]), c["kind"], repr(v), c["text"]), nontrivial)
         ctx.count("kind:" + c["kind"])
         ctx.count("digits:" + str(c["digits"]))
-        case_ops = c["cfg"] + [{"op": "exec", "lang": "en", "text": c["text"]}] + DEFAULT
+        case_ops = (c["hist_ops"] if "hist_ops" in c else c["cfg"] + [{"op": "exec", "lang": "en", "text": c["text"]}]) + DEFAULT
         if l is None or "out" not in l:
             ctx.oracle_fail({"class": "no-output:" + c["kind"], "what": "value did not print", "ops": case_ops, "impl": l if "lines" in r else r, "spec": c["want"]})
             continue
@@ -217,7 +250,7 @@ def run(ctx, model_ok):
             else:
                 ctx.traces_validated += 1
         co = wire.Corr(ctx, compare=("kind", "value", "out"))
-        co.run([{"lang": "en", "text": c["text"], "cfg": c["cfg"]} for c in cases[:ctx.n(600, 8000)]])
+        co.run([{"lang": "en", "text": c["text"], "cfg": c.get("full", c["cfg"])} for c in cases[:ctx.n(600, 8000)]])
         ctx.dist.update({"corr:" + k: v for k, v in co.stats.items()})
 
 
